@@ -150,7 +150,7 @@ def subslice(I, s, a, b):
 
 
 # ------------------------------------------------------------------ slices
-@model(r'^<(?:\[.*\]|Vec<.*>|str|String) as (?:Index|IndexMut)<(.*)>>::index(?:_mut)?$')
+@model(r'^<(?:\[.*\]|Vec<.*>|str|String) as (?:(?:std|core)::ops::)?(?:Index|IndexMut)<(.*)>>::index(?:_mut)?$')
 def m_index(I, fr, callee, m, args):
     s = as_slice(I, args[0])
     idx = args[1]
